@@ -406,7 +406,18 @@ impl<'a> Gen<'a> {
             ops.push(Op::Delete { path: "definitely-missing.txt".into() });
             touched.push("definitely-missing.txt".into());
         }
-        let text = gp::render(&PatchDoc { ops }, false, true);
+        let mut text = gp::render(&PatchDoc { ops }, false, true);
+        // the same document as the model might really send it: white space / BOM around the envelope. Whether such a
+        // text is accepted is the tool's business (the judge looks at what really happened to the tree): what matters
+        // is that the automatic checkpoint and the tool agree on it. The generator's model treats it as not applied.
+        let padded = well_formed && self.rng.chance(1, 5);
+        if padded {
+            let lead = ["\n", " ", "\t", "\r\n", "\n\n  ", "\u{feff}", ""][self.rng.usize(7)];
+            let trail = ["", "  ", "\n\n", " \n", "\r\n", "\t"][self.rng.usize(6)];
+            let body = text.trim_end_matches('\n').to_string();
+            text = format!("{lead}{body}{trail}");
+        }
+        let well_formed = well_formed && !padded;
         let mut snap = BTreeMap::new();
         for p in &touched {
             snap.insert(p.clone(), self.m.files.get(p).cloned());
@@ -414,10 +425,10 @@ impl<'a> Gen<'a> {
         let i = self.push(
             json!({"op": "tool", "driver": self.tool_driver(), "name": "apply_patch", "args": {"patch": text}}),
             Plan::Tool { name: "apply_patch", named: touched.clone(), well_formed },
-            &format!("patch[{}{}]", kinds.join("+"), if failing { "+FAIL" } else { "" }),
+            &format!("patch[{}{}{}]", kinds.join("+"), if failing { "+FAIL" } else { "" }, if padded { "+PAD" } else { "" }),
         );
         self.snaps.insert(i, snap);
-        if !failing {
+        if !failing && !padded {
             self.m = state;
         }
         i
